@@ -504,19 +504,20 @@ def rule_scaling_flag(chk, prog):
             raise AnalysisBroken("%s::IncSolver(vs, cs) constructor not found" % ns)
         n_cfg = 0
         bad = None
-        pairs = [(0, 1), (1, 2), (0, 2)]
+        nv = 4 if chk.tier == "thorough" else 3
+        pairs = [(a, b) for a in range(nv) for b in range(a + 1, nv)]
         hooks = {ns + "::Blocks::Blocks": lambda it, n, env: None}
-        for scales in itertools.product((1, 2), repeat=3):
-            for init_mask in range(8):
-                for later in range(3):
+        for scales in itertools.product((1, 2), repeat=nv):
+            for init_mask in range(1 << len(pairs)):
+                for later in range(len(pairs)):
                     if init_mask & (1 << later):
                         continue
                     vs = [default_obj(prog, ns + "::Variable", {"id": i, "scale": Fraction(scales[i]), "weight": Fraction(1), "desiredPosition": Fraction(i),
                                                                "offset": Fraction(0), "in": Vec([], ns + "::Constraint *"),
-                                                               "out": Vec([], ns + "::Constraint *")}) for i in range(3)]
+                                                               "out": Vec([], ns + "::Constraint *")}) for i in range(nv)]
                     mk = lambda pr: default_obj(prog, ns + "::Constraint", {"left": vs[pr[0]], "right": vs[pr[1]], "gap": Fraction(1),
                                                                             "needsScaling": True})
-                    init = [mk(pairs[k]) for k in range(3) if init_mask & (1 << k)]
+                    init = [mk(pairs[k]) for k in range(len(pairs)) if init_mask & (1 << k)]
                     solver = default_obj(prog, ns + "::IncSolver", {})
                     it = Interp(prog, Oracle([]), hooks={ns + "::Blocks::Blocks*": (lambda it_, n, env: None)})
                     it.noop_new = True
@@ -533,7 +534,7 @@ def rule_scaling_flag(chk, prog):
                         if (l_.f["scale"] != 1 or r_.f["scale"] != 1) and not con.f["needsScaling"]:
                             bad = bad or ("scales %s, initial constraints %s, added later %s: the constraint between variables %d and %d "
                                           "(scales %s, %s) has needsScaling == false" % (
-                                              list(scales), [pairs[k] for k in range(3) if init_mask & (1 << k)], pairs[later],
+                                              list(scales), [pairs[k] for k in range(len(pairs)) if init_mask & (1 << k)], pairs[later],
                                               l_.f["id"], r_.f["id"], l_.f["scale"], r_.f["scale"]))
         r.count(n_cfg)
         (r.bad if bad else r.ok)(ns + "::Solver / IncSolver::addConstraint", ctor[0].where(), bad or "%d configurations" % n_cfg)
